@@ -7,7 +7,7 @@ from models import refstore
 ID = "C12"
 RULE = (
     "two families of cases, both executed on the real PathsManager in a clean sandbox and compared with models/refstore.Paths: "
-    "(roundtrip) every ordered list of 1..3 distinct csvpath texts from a 14-text alphabet (no comment, id, name, identities that start with or contain digits, id+name "
+    "(roundtrip) every ordered list of 1..3 distinct csvpath texts from a 16-text alphabet (no comment, id, name, the keys spelled id/Id/ID and name/Name/NAME, identities that start with or contain digits, id+name "
     "precedence, comment after the csvpath, inner comments, newlines/indentation, multi-line outer comment, quoted header) -> "
     "add, get, every name#id and $name.csvpaths.id, every :from/:to; (history) every sequence of <=3 (thorough <=5) operations over "
     "{add(name in 2, list in 5), remove(name in 2), new instance}, with get/#id/:from/:to for every group and manifest length + "
@@ -15,8 +15,8 @@ RULE = (
     "state = model store after each operation"
 )
 BOUNDS = {
-    "quick": "2,380 round-trip lists (1..3 of 14 texts) + all 2,379 histories of length<=3 over 13 operations",
-    "thorough": "10,300 round-trip lists (1..3 of 14 texts, 4 of the first 11) + all 402,233 histories of length<=5 (the length the quantifier names)",
+    "quick": "3,616 round-trip lists (1..3 of 16 texts) + all 2,379 histories of length<=3 over 13 operations",
+    "thorough": "11,536 round-trip lists (1..3 of 16 texts, 4 of the first 11) + all 402,233 histories of length<=5 (the length the quantifier names)",
 }
 CHUNK = 60
 BUDGET = {"quick": 500, "thorough": 3500}
@@ -40,6 +40,8 @@ T = [
     ("2", "~ id: 2 ~ $f[*][yes()]"),
     ("3rd-check", "~ name: 3rd-check ~ $f[*][#0]"),
     ("b4_x", "~ id: b4_x ~ $f[*][no()]"),
+    ("lam", "~ Id: lam ~ $f[*][yes()]"),
+    ("mu", "~ Name: mu ~ $f[3][yes()]"),
 ]
 LISTS = [[0], [1, 2], [2, 1], [1, 2, 6], [7]]
 NAMES = ["p1", "p2"]
